@@ -386,7 +386,7 @@ func genMessage(g simrt.Gen, w *world, idx int) *genMsg {
 	case 3:
 		prim.observed, prim.hasObs = ma.StringCast(fmt.Sprintf("/ip4/66.6.6.6/tcp/666/p2p/%s", w.h1.id)).Bytes(), true
 	}
-	agentKind := g.Weighted(6, 1, 1, 1)
+	agentKind := g.Weighted(14, 2, 2, 1)
 	switch agentKind {
 	case 0:
 		s := m.tag
@@ -434,61 +434,97 @@ func genMessage(g simrt.Gen, w *world, idx int) *genMsg {
 	for _, a := range laddrs {
 		size += len(a) + 2
 	}
+	scalarSize := func(s scalars) int {
+		n := len(s.pubKey) + len(s.rec) + len(s.observed)
+		if s.agent != nil {
+			n += len(*s.agent)
+		}
+		if s.pv != nil {
+			n += len(*s.pv)
+		}
+		return n
+	}
 	need := size/7000 + 1
 	nChunks := chunkCounts[g.Weighted(6, 2, 1, 2, 1, 1)]
-	if nChunks < need && !g.Chance(1, 8) {
+	allowOversize := g.Chance(1, 10)
+	if nChunks < need && !allowOversize {
 		nChunks = need
+	}
+	if dup && nChunks == 1 {
+		nChunks = 2 // one chunk cannot carry a scalar twice
+	}
+	interleave := g.Bool()
+	primDraw, altDraw := g.Int(1000), g.Int(1000)
+	var msgs []*pb.Identify
+	var primAt, altAt int
+	for {
+		msgs = make([]*pb.Identify, nChunks)
+		for i := range msgs {
+			msgs[i] = &pb.Identify{}
+		}
+		primAt, altAt = primDraw%nChunks, -1
+		if dup {
+			altAt = (primAt + 1 + altDraw%(nChunks-1)) % nChunks
+		}
+		// chunks that carry a large scalar set take no repeated items (when there are other chunks)
+		var carriers []int
+		for c := 0; c < nChunks; c++ {
+			if (c == primAt && scalarSize(prim) > 2500) || (c == altAt && scalarSize(alt) > 2500) {
+				continue
+			}
+			carriers = append(carriers, c)
+		}
+		if len(carriers) == 0 {
+			carriers = []int{primAt}
+		}
+		place := func(i, n int) int { // chunk of item i of n
+			if interleave {
+				return carriers[i%len(carriers)]
+			}
+			return carriers[i*len(carriers)/n]
+		}
+		for i, p := range protos {
+			c := msgs[place(i, len(protos))]
+			c.Protocols = append(c.Protocols, p)
+		}
+		for i, a := range laddrs {
+			c := msgs[place(i, len(laddrs))]
+			c.ListenAddrs = append(c.ListenAddrs, a)
+		}
+		setScalars := func(c *pb.Identify, s scalars) {
+			if s.hasKey {
+				c.PublicKey = s.pubKey
+			}
+			if s.rec != nil {
+				c.SignedPeerRecord = s.rec
+			}
+			if s.hasObs {
+				c.ObservedAddr = s.observed
+			}
+			if s.agent != nil {
+				c.AgentVersion = s.agent
+			}
+			if s.pv != nil {
+				c.ProtocolVersion = s.pv
+			}
+		}
+		setScalars(msgs[primAt], prim)
+		if dup {
+			setScalars(msgs[altAt], alt)
+		}
+		big := false
+		for _, c := range msgs {
+			if proto.Size(c) > 8*1024 {
+				big = true
+			}
+		}
+		if !big || allowOversize || nChunks >= 9 {
+			break
+		}
+		nChunks++
 	}
 	if nChunks > 9 {
 		m.feat("too-many-chunks")
-	}
-	msgs := make([]*pb.Identify, nChunks)
-	for i := range msgs {
-		msgs[i] = &pb.Identify{}
-	}
-	interleave := g.Bool()
-	place := func(i, n int) int { // chunk of item i of n
-		if interleave || n == 0 {
-			return i % nChunks
-		}
-		return i * nChunks / n
-	}
-	for i, p := range protos {
-		c := msgs[place(i, len(protos))]
-		c.Protocols = append(c.Protocols, p)
-	}
-	for i, a := range laddrs {
-		c := msgs[place(i, len(laddrs))]
-		c.ListenAddrs = append(c.ListenAddrs, a)
-	}
-	setScalars := func(c *pb.Identify, s scalars) {
-		if s.hasKey {
-			c.PublicKey = s.pubKey
-		}
-		if s.rec != nil {
-			c.SignedPeerRecord = s.rec
-		}
-		if s.hasObs {
-			c.ObservedAddr = s.observed
-		}
-		if s.agent != nil {
-			c.AgentVersion = s.agent
-		}
-		if s.pv != nil {
-			c.ProtocolVersion = s.pv
-		}
-	}
-	primAt := g.Int(nChunks)
-	setScalars(msgs[primAt], prim)
-	altAt := -1
-	if dup {
-		if nChunks == 1 {
-			// same chunk cannot carry a scalar twice through the protobuf API: append a second chunk
-			msgs = append(msgs, &pb.Identify{})
-			nChunks++
-		}
-		altAt = (primAt + 1 + g.Int(nChunks-1)) % nChunks
-		setScalars(msgs[altAt], alt)
 	}
 	for _, c := range msgs {
 		b, err := proto.Marshal(c)
